@@ -17,7 +17,7 @@ def check(run):
     run.tlc_mc("XState.tla", "MC_XState.cfg" if quick else "MC_XState_thorough.cfg", timeout=3000)
     if not quick:
         run.tlc_mc("XState.tla", "MC_XState_kv.cfg", timeout=3000)
-    kv = '{"p1", "p2", "p3", "p4", "p5", "p6", "p7", "p8", "p9", "p10", "t1", "t2"}'
+    kv = '{"p1", "p2", "p3", "p4", "p5", "p6", "p7", "p8", "p9", "p10", "p12", "t1", "t2"}'
     plans = [dict(num=160, ops=18), dict(num=140, ops=20, txs=kv, maxb=8)] if quick else \
             [dict(num=1500, ops=18), dict(num=800, ops=26, maxb=9), dict(num=1000, ops=22, txs=kv, maxb=8), dict(num=400, ops=18, window=2)]
     groups = xc.gen(run, plans)
